@@ -327,7 +327,10 @@ fn session(x: &X) -> X {
 //   0 open k | 1 write k bytes | 2 fin k | 3 await k | 4 shutdown | 5 release | 6 drop k |
 //   7 req k bytes (= open, write, fin, await) | 8 send k bytes (= open, write, fin) | 9 peek k |
 //   10 unlink the socket file and wait for the re-listen | 11 sleep k ms | 12 exhaust the descriptor table and connect k |
-//   13 release the descriptors | 14 has the instance finished shutting down?
+//   13 release the descriptors | 14 has the instance finished shutting down? |
+//   15 unlink the socket file and go on AT ONCE (what the script does next happens while the watcher sleeps its 100 ms /
+//      the accept loop pauses its 100 ms / the path is bound again, depending on the `11 sleep` steps that follow) |
+//   16 the re-listen that follows a removal: is a listener bound to the path (again)?
 // Output: one `(L (N k) reply)` per await / req / peek step, reply = `(L (N 0) (B data))`,
 // `(L (N 1))` connect refused / no listener, `(L (N 2))` I/O error, `(L (N 3))` nothing within the
 // bounded wait (`KV_C19_WAIT_MS`, default 6000), `(L (N 4))` nothing yet (peek), `(L (N 5))` no such connection.
@@ -354,6 +357,8 @@ struct Conc {
     ran_out: u32,
     /// descriptors that only occupy the process's descriptor table (step 12 / 13)
     fill: Vec<std::fs::File>,
+    /// the listening sockets that were bound to the path before the last removal by step 15
+    before_unlink: Vec<u64>,
 }
 impl Conc {
     async fn open(&mut self, k: u64) {
@@ -449,7 +454,7 @@ fn parse_script(x: &X) -> Option<Script> {
             Some(b) => b.as_b()?.to_vec(),
             None => Vec::new(),
         };
-        if op > 14 {
+        if op > 16 {
             return None;
         }
         script.push((op, k, b));
@@ -461,7 +466,7 @@ fn parse_script(x: &X) -> Option<Script> {
 /// Otherwise the outputs and the number of bounded waits that ran out.
 async fn run_script(script: &Script, kind: Kind, wait: Duration) -> Option<(Vec<X>, u32)> {
     let server = Server::start_kind(kind).await?;
-    let mut c = Conc { server, conns: Default::default(), wait, ran_out: 0, fill: Vec::new() };
+    let mut c = Conc { server, conns: Default::default(), wait, ran_out: 0, fill: Vec::new(), before_unlink: Vec::new() };
     let mut out = Vec::new();
     for (op, k, b) in script {
         let (op, k) = (*op, *k);
@@ -564,6 +569,54 @@ async fn run_script(script: &Script, kind: Kind, wait: Duration) -> Option<(Vec<
                     c.wait = Duration::from_millis(400);
                 }
                 out.push(X::L(vec![X::N(k.into()), X::L(vec![X::N(if done { 8 } else { 9 })])]));
+            }
+            // The socket file is removed and the script goes on at once (no output).  Only the watch is waited for
+            // BEFORE the removal, as in step 10.
+            15 => {
+                let before = listeners(&c.server.path);
+                if !before.is_empty() {
+                    let t0 = Instant::now();
+                    while !watched(&c.server.path) && t0.elapsed() < Duration::from_secs(5) {
+                        tokio::time::sleep(Duration::from_millis(2)).await;
+                    }
+                    if std::fs::remove_file(&c.server.path).is_ok() {
+                        c.before_unlink = before;
+                    }
+                }
+            }
+            // 6 = a listening socket other than those of before the removal is bound to the path, 7 = none is.
+            // When nothing has asked the instance to close, a new listener is waited for (up to 10 s; the code needs
+            // 200 ms).  When something has (a closing plugin ran / the shutdown was initiated), nobody may listen any
+            // more: the step looks `KV_C19_CLOSED_MS` (default 1200) after it was reached and reports a listener only if
+            // it is still there 3 s later (a close that is sent in the instant between the emptying of the channel and the
+            // bind is received by the new accept loop at once: that listener goes away by itself).  Only "closed => nobody
+            // listens later" depends on this wait, and the real code never binds again at any delay.
+            16 => {
+                let closing =
+                    c.server.close_requested.load(Ordering::SeqCst) || c.server.manager.get_shutdown(Ordering::SeqCst);
+                let fresh = |c: &Conc| listeners(&c.server.path).iter().any(|i| !c.before_unlink.contains(i)) && c.server.path.exists();
+                let mut ok = false;
+                if closing {
+                    let ms = std::env::var("KV_C19_CLOSED_MS").ok().and_then(|v| v.parse().ok()).unwrap_or(1200u64);
+                    tokio::time::sleep(Duration::from_millis(ms)).await;
+                    if fresh(&c) {
+                        let t0 = Instant::now();
+                        while fresh(&c) && t0.elapsed() < Duration::from_secs(3) {
+                            tokio::time::sleep(Duration::from_millis(20)).await;
+                        }
+                        ok = fresh(&c);
+                    }
+                } else {
+                    let t0 = Instant::now();
+                    while t0.elapsed() < Duration::from_secs(10) {
+                        if fresh(&c) {
+                            ok = true;
+                            break;
+                        }
+                        tokio::time::sleep(Duration::from_millis(5)).await;
+                    }
+                }
+                out.push(X::L(vec![X::N(k.into()), X::L(vec![X::N(if ok { 6 } else { 7 })])]));
             }
             _ => {}
         }
